@@ -5,11 +5,14 @@ field operations on a register store (so that c==a / c==b / a==b are expressible
 group-law result of Mathlib's `WeierstrassCurve.Affine.Point` for every field of characteristic != 2,
 all points incl. O, P = Q, P = -Q, order two, and each allowed aliasing; (b) the window-NAF loops of
 ecMulA / ecAddMulA over ANY additive commutative group compute d•P / Σ dᵢ•Pᵢ and report O exactly
-when the result is 0, for every scalar length and window width.
+when the result is 0, for every scalar length and window width; (c) the same for the 13 routines of ec2.c over any
+field of characteristic 2 (Lopez-Dahab).
+Tie (a): xlate/x_c06_ecp.py regenerates the programs of ecp.c / ec2.c, the create tables and ecNAFWidth from the
+current source; PropsGen*.lean identify them with the model by rfl.
 Tie (b): the same op lines go to harness/c06.c (real ec_o function table of ecpCreateJ + gfpCreate,
 ecMulA, ecAddMulA, ecHasOrderA, ecpAddAA, ecpSubAA, ecpIsOnA, ecpSWU) and to drv_c06 (the Lean model
 run on residues mod p); outputs are compared after normalisation to affine.
-Search oracle (implementation only): independent affine chord-and-tangent group law in Python,
+Search oracle (implementation only): independent affine chord-and-tangent group law in Python (prime and binary curves),
 nP by double-and-add / repeated addition, reference SWU, curve equation.
 """
 import os, re
@@ -672,16 +675,6 @@ def gen_ec2_unreduced(ctx):
     return ops
 
 
-def gf2IsIn_unfixed():
-    """True while include/bee2/math/gf2.h still has the integer comparison in gf2IsIn (fix-2 not applied)"""
-    try:
-        src = open(os.path.join(REPO, "include/bee2/math/gf2.h")).read()
-    except OSError:
-        return False
-    m = re.search(r"#define gf2IsIn\(a, f\)\\\n([^\n]*)", src)
-    return bool(m) and "wwCmp(a, (f)->mod, (f)->n) < 0" in m.group(1)
-
-
 CORPUS = [
     # textbook curve y^2 = x^3 + x + 1 over F_23 (order 28): P + Q, 2P, 28P = O
     "add 17 1 1 n 3 a 1 9 7 1", "dbl 17 1 1 ca 3 a 1", "mul 17 1 1 3 a 1c 1", "mul 17 1 1 3 a 1d 1",
@@ -764,12 +757,9 @@ def run(ctx):
     # ec2.c (Lopez-Dahab): differential against the Lean model (Ec2.lean + gf2Fld) and, independently of the model,
     # against the Python reference on the ASSERT-enabled build
     ops2 = gen_ec2(ctx, quick)
-    if gf2IsIn_unfixed():
-        ctx.notes.append("finding C06-F2 pending: gf2IsIn compares with the modulus as integers, ec2IsOnA accepts coordinates of degree m; "
-                         "fix in docs/C06.fix-2.diff; the witness lines are generated as soon as gf2.h no longer has that comparison")
-        ctx.cov["pending_fix"] = "docs/C06.fix-2.diff"
-    else:
-        ops2 = gen_ec2_unreduced(ctx) + ops2
+    # regression guard for finding C06-F2 (fixed in /repo by "fix: gf2IsIn accepted polynomials of degree m"):
+    # coordinates of degree m are not field elements and must be rejected by ec2IsOnA
+    ops2 = gen_ec2_unreduced(ctx) + ops2
     if os.path.exists(ctx.driver()):
         m2, _, _ = ctx.diff_run(exe, ops2, "ec2-differential")
         mism += m2
@@ -786,9 +776,11 @@ def run(ctx):
     hist = {}
     for o in ops:
         hist[kind_of(o)] = hist.get(kind_of(o), 0) + 1
+    for o in ops2:
+        hist["ec2:" + kind_of(o)] = hist.get("ec2:" + kind_of(o), 0) + 1
     ctx.cov["op_histogram"] = hist
     ctx.cov["small_curves"] = stats
-    ctx.cov["distinct_nontrivial"] = len(set(ops))
+    ctx.cov["distinct_nontrivial"] = len(set(ops) | set(ops2))
     ctx.samples += [ops[len(CORPUS)], ops[len(CORPUS) + len(small)], ops[-1]]
     ctx.samples.append({"theorem": "Bee2V.C06.ecMulA_spec", "statement": "wNAF loop over any AddCommGroup computes d • P, FALSE iff d • P = 0"})
     if bad2:
@@ -829,7 +821,10 @@ def run(ctx):
         assumptions=[
             "hand-written executable model of ecp.c / ec.c / wwNAF tied by the differential run (harness/c06.c vs drv_c06); "
             "field arithmetic of zm/gfp/qr (C05) is taken as exact arithmetic mod p",
-            "ec2.c (Lopez-Dahab over GF(2^m)) is not modelled (stage 2)",
+            "binary curves (ec2.c): theorems hold over any field of characteristic 2; that the driver's executable GF(2^m) arithmetic "
+            "(Core2.gf2Fld) is such a field is not proved (explicit hypothesis of ecMulA_gf2_partial), tied to gf2.c by the differential run",
+            "programs of ecp.c / ec2.c, the create tables and ecNAFWidth are regenerated from the source by xlate/x_c06_ecp.py (clang AST) and "
+            "identified with the model by rfl",
         ],
         rule="pair = one ordered pair of points (incl. O) of one curve run through every routine and aliasing; small curves are enumerated "
              "(all curves and all ordered pairs for the primes listed in small_curves.complete_primes, sampled curves/pairs above); "
